@@ -2,6 +2,7 @@
 #include <bspline/Core.h>
 #include <cstddef>
 #include <new>
+#include <type_traits>
 using namespace bspline;
 using namespace bspline::operators;
 using namespace bspline::integration;
@@ -47,6 +48,46 @@ W double w_bilin(const S2 *a, const S1 *b) { return BilinearForm{X<1>{}}(*a, *b)
 W double w_scalarprod(const S2 *a, const S1 *b) { return ScalarProduct{}(*a, *b); }
 W double w_linform(const S2 *a) { return LinearForm{Dx<1>{}}(*a); }
 W void w_generate1(void *mem, const Gen *g) { new (mem) std::vector<S1>(g->generateBSplines<1>()); }
+
+// ---- a CLASS-TYPE scalar (not trivially copyable): the library may dispatch on type traits of T, and code that only such scalars
+// reach (e.g. a scratch buffer kept for "expensive" number types) never runs with double. Everything except the abscissa is built
+// inside the wrapper, so the only memory two threads could share is what the library itself keeps in statics.
+struct Num {
+  double v;
+  Num() : v(0) {}
+  template <typename I, std::enable_if_t<std::is_integral_v<I>, bool> = true> explicit Num(I i) : v(static_cast<double>(i)) {}
+  struct FromDouble {};
+  Num(FromDouble, double d) : v(d) {}
+  Num(const Num &o) : v(o.v) {}
+  Num &operator=(const Num &o) { v = o.v; return *this; }
+  ~Num() {}
+  Num operator+(const Num &o) const { return Num(FromDouble{}, v + o.v); }
+  Num operator-(const Num &o) const { return Num(FromDouble{}, v - o.v); }
+  Num operator*(const Num &o) const { return Num(FromDouble{}, v * o.v); }
+  Num operator/(const Num &o) const { return Num(FromDouble{}, v / o.v); }
+  Num operator-() const { return Num(FromDouble{}, -v); }
+  Num &operator+=(const Num &o) { v += o.v; return *this; }
+  Num &operator-=(const Num &o) { v -= o.v; return *this; }
+  Num &operator*=(const Num &o) { v *= o.v; return *this; }
+  Num &operator/=(const Num &o) { v /= o.v; return *this; }
+  bool operator<(const Num &o) const { return v < o.v; }
+  bool operator<=(const Num &o) const { return v <= o.v; }
+  bool operator>(const Num &o) const { return v > o.v; }
+  bool operator>=(const Num &o) const { return v >= o.v; }
+  bool operator==(const Num &o) const { return v == o.v; }
+  bool operator!=(const Num &o) const { return v != o.v; }
+};
+static_assert(!std::is_trivially_copyable_v<Num>, "Num must be a class-type scalar that is not trivially copyable");
+W double w_classscalar(double x) {
+  using GN = bspline::support::Grid<Num>;
+  using SN = Spline<Num, 1>;
+  GN &g = *new GN(std::vector<Num>{Num(0), Num(1), Num(3)});  // deliberately not released: the last-owner path of shared_ptr (a virtual call) is outside the executor
+  std::vector<std::array<Num, 2>> ca{{Num(Num::FromDouble{}, x), Num(1)}, {Num(2), Num(Num::FromDouble{}, x)}}, cb{{Num(1), Num(2)}, {Num(3), Num(1)}};
+  SN a(bspline::support::Support<Num>(g, 0, 3), ca), b(bspline::support::Support<Num>(g, 0, 3), cb);
+  Num r = ScalarProduct{}(a, b) + BilinearForm{X<1>{}, Dx<1>{}}(a, b) + LinearForm{}(a + b) + (a * b)(Num(Num::FromDouble{}, x)) + (X<1>{} * a - b * Num(2))(Num(1));
+  r += linearCombination(std::vector<Num>{Num(2), Num(3)}, std::vector<SN>{a, b})(Num(Num::FromDouble{}, x));
+  return r.v;
+}
 
 #ifdef NATIVE_SHIM
 // native-only helpers: a really constructed generator, whose bytes give the initial values of members the harness does not know
